@@ -25,7 +25,7 @@ WANT = ("c18",)
 
 
 def gen_cases(seed, tier):
-    n = 64 if tier == "quick" else 2000
+    n = 96 if tier == "quick" else 2000
     return [crash_case(ID, seed, i, tier=tier) for i in range(n)]
 
 
